@@ -33,6 +33,9 @@ VARIANTS = [
     # ---- C03
     ("C03", "reamber/sm/SMMap.py", "keys = SMMapChartTypes.get_keys(self.chart_type)", "keys = int(notes.column.max()) + 1", B, "C03.R6"),
     ("C03", "reamber/sm/SMMap.py", "*self.lifts.column,\n                *self.mines.column,", "*self.mines.column,\n                *self.lifts.column,", B, "C03.R3"),
+    ("C03", "reamber/base/lists/notes/HoldList.py", "return self.offset + self.length", "return self.offset + self.length - 1", B, "C03.D"),
+    ("C01", "reamber/base/lists/notes/HoldList.py", "return self.offset + self.length", "return self.offset + self.length - 1", T, ""),
+    ("C02", "reamber/algorithms/timing/utils/snap.py", "self.measure == other.measure and self.beat < other.beat", "self.measure == other.measure and self.beat <= other.beat", B, "C02.D"),
     # ---- C04
     ("C04", BMS, "hits[column].pop(-1)", "hits[column].pop(0)", B, "C04.R3"),
     ("C04", BMS, "int(pair, 16)", "int(pair, 36)", B, "C04.R3"),
@@ -51,6 +54,7 @@ VARIANTS = [
     ("C05", BMS, "i.beat.denominator * i.metronome for", "i.beat.denominator for", B, "C05.R6"),
     ("C05", BMS, "df.num *= df.new_den / df.den", "df.num *= df.den / df.new_den", B, "C05.R6"),
     ("C05", BMS, "df.num *= df.new_den / df.den", "df.num = df.num * df.new_den / df.den", T, ""),
+    ("C05", "reamber/base/lists/notes/HoldList.py", "return self.offset + self.length", "return self.offset + self.length - 1", B, "C05.D"),
     # ---- C06
     ("C06", "reamber/quaver/lists/notes/QuaHitList.py", "df.column += 1", "df.column += 0", B, "C06.R2"),
     ("C06", "reamber/quaver/lists/notes/QuaHoldList.py", "dict(offset=int, column=int, EndTime=int)", "dict(offset=int, column=int)", B, "C06.R3"),
@@ -99,6 +103,7 @@ VARIANTS = [
     ("C13", "reamber/osu/OsuMap.py", "osu.preview_time /= by", "pass", B, "C13.R4"),
     ("C13", "reamber/base/MapSet.py", "copy.maps = [m.rate(by=by) for m in copy.maps]", "copy.maps = [m.rate(by=by) for m in copy.maps[:1]]", B, "C13.R3"),
     ("C13", "reamber/base/Map.py", "stack.offset /= by", "stack.offset = stack.offset / by", T, ""),
+    ("C13", "reamber/base/Map.py", "obj.df = self._stacked[obj.df.columns].iloc[ix_i:ix_j]", "obj.df = self._stacked[obj.df.columns].iloc[ix_i:ix_j - 1]", B, "C13.D"),
     # ---- C14
     ("C14", "reamber/base/lists/TimedList.py", "        return max(self.offset)", "        self.df.sort_values('offset', inplace=True)\n        return max(self.offset)", B, "C14.R1"),
     ("C14", "reamber/algorithms/generate/sv_normalize.py", "df_bpm = m.bpms.df.copy()", "df_bpm = m.bpms.df", B, "C14.R1"),
